@@ -7,13 +7,16 @@ All statements are about the definitions of `Nitime/Model/C10.lean` (`arLD`, `ar
 The Levinson–Durbin induction itself is `Lemmas/LevinsonDurbin.lean` (`LD.ld_correct`);
 `ldLoop_spec` shows that the model's loop state (list `w`, lagging `b`, `w_k`) is `LD.ld`.
 
-Not proved here (see notes/C10.md): root location ("stable") — only `sigma_pos`
-(|κ_j| < 1 ⇒ σ > 0); that `Mat.solveVec` (Gauss–Jordan) honours the `IsSolution` contract;
-Float ≈ ℂ.
+Stability is proved as: all |κ_j| < 1 ⇒ all roots inside the unit circle (`arLD_stable`) and σ > 0
+(`sigma_pos`); that |κ_j| < 1 follows from a positive-definite Toeplitz matrix is not proved here.
+The model's own `solve` (`GMat.solve`, Gauss–Jordan) is proved to honour the `IsSolution` contract
+whenever it returns (`gjSolve_isSolution`, `arYW_gj_eq_arLD`).  Not proved here: Float ≈ ℂ.
 -/
 import Nitime.Model.C10
 import Nitime.Lemmas.ARInst
 import Nitime.Lemmas.LevinsonDurbin
+import Nitime.Lemmas.SchurCohn
+import Nitime.Lemmas.GaussJordan
 import Mathlib.LinearAlgebra.Matrix.Nondegenerate
 
 open Finset ComplexConjugate
@@ -177,6 +180,26 @@ theorem sigma_pos (p : ℕ) (hr : 0 < (r 0).re)
   intro j hj
   linarith [hk j hj]
 
+/-- **C10 stability.** If every reflection coefficient the model computes has modulus below one,
+all zeros of the characteristic polynomial `z^p − Σ a_i z^{p−i}` of the fitted model lie strictly
+inside the unit circle (the fitted AR recursion is stable).  Schur–Cohn step-down argument,
+`Lemmas/SchurCohn.lean`. -/
+theorem arLD_stable (h0 : conj (r 0) = r 0) (p : ℕ)
+    (hk : ∀ j ∈ Icc 1 (p + 1), Complex.normSq (kappaM r j) < 1) (z : ℂ) (hz : 1 ≤ Complex.normSq z) :
+    z ^ (p + 1) - ∑ i ∈ Icc 1 (p + 1), coef (arLD r (p + 1)).1 i * z ^ (p + 1 - i) ≠ 0 := by
+  have hκ : ∀ j, j < p + 1 → Complex.normSq (LD.kap r j) < 1 := by
+    intro j hj
+    have := hk (j + 1) (by simp only [mem_Icc]; omega)
+    rwa [kappaM, (ldLoop_spec h0 j).2.2.1, LD.ld_succ_a_top] at this
+  have := (LD.stable_of_kappa_lt_one (r := r) (p + 1) hκ z hz).1
+  unfold LD.Pf at this
+  intro h
+  apply this
+  rw [← h]
+  congr 1
+  refine sum_congr rfl fun i hi => ?_
+  rw [(arLD_is_ld h0 p).1 i hi]
+
 /-! ### Toeplitz solve -/
 
 /-- contract of `linalg.solve(T, y)` written with the functions the model fills `T`, `y` with -/
@@ -254,6 +277,68 @@ theorem arYW_sigma (solve : List (List ℂ) → List ℂ → List ℂ) (p : ℕ)
   refine sum_congr rfl fun i _ => ?_
   simp [coef, mul_comm]
 
+
+/-! ### the model's own solver (Gauss–Jordan) meets the contract -/
+section gj
+open Nitime.AR.GMat
+variable {r : ℕ → ℂ}
+
+lemma toeplitzH_eq_ofFn (p : ℕ) : toeplitzH r p = GMat.ofFn p p (toepEntry r) := rfl
+
+lemma toMatrix_toeplitz (p : ℕ) : GMat.toMatrix p (toeplitzH r p) = toepMatrix r p := by
+  ext k i
+  simp only [GMat.toMatrix, toepMatrix, Matrix.of_apply, toeplitzH_eq_ofFn]
+  rw [GMat.entry_ofFn _ k.2 i.2]
+
+/-- **C10 the model's `solve` honours its contract.** Whenever the Gauss–Jordan model returns
+(the elimination ended with the identity), `GMat.solve T y` solves the Yule–Walker system. -/
+theorem gjSolve_isSolution (p : ℕ) (X : List (List ℂ)) (h : GMat.inv? p (toeplitzH r p) = some X) :
+    IsSolution r p (arYW GMat.solve r p).1 ∧ (toepMatrix r p).det ≠ 0 := by
+  obtain ⟨hl, hr⟩ := GMat.inv?_left_inverse p _ X h
+  rw [toMatrix_toeplitz] at hl hr
+  have hdet : (toepMatrix r p).det ≠ 0 := by
+    intro h0
+    have := congrArg Matrix.det hr
+    rw [Matrix.det_mul, h0, zero_mul, Matrix.det_one] at this
+    exact zero_ne_one this
+  refine ⟨?_, hdet⟩
+  have hy : ((List.range p).map fun k => r (k + 1)).length = p := by simp
+  have hsol : (arYW GMat.solve r p).1 = GMat.mulVec p X ((List.range p).map fun k => r (k + 1)) := by
+    simp only [arYW, GMat.solve, hy, h]
+  intro k hk
+  rw [hsol]
+  have hget : ∀ i, i < p → (GMat.mulVec p X ((List.range p).map fun k => r (k + 1))).getD i 0
+      = ∑ l ∈ range p, GMat.entry X i l * r (l + 1) := by
+    intro i hi
+    simp only [GMat.mulVec, List.getD_eq_getElem?_getD, List.getElem?_map, List.getElem?_range hi,
+      Option.map_some, Option.getD_some, sumRange_eq, sc_mul, sc_zero]
+    refine sum_congr rfl fun l hl => ?_
+    simp only [mem_range] at hl
+    simp [List.getElem?_range hl]
+  rw [sum_congr rfl fun i hi => by rw [hget i (mem_range.mp hi)]]
+  -- Σ_i T k i Σ_l X i l y_l = Σ_l (T X) k l y_l = y_k
+  have hTX : ∀ l, l < p → ∑ i ∈ range p, toepEntry r k i * GMat.entry X i l = if k = l then 1 else 0 := by
+    intro l hl
+    have := congrFun (congrFun hr ⟨k, hk⟩) ⟨l, hl⟩
+    simp only [Matrix.mul_apply, Matrix.one_apply, toepMatrix, GMat.toMatrix, Matrix.of_apply, Fin.mk.injEq] at this
+    rw [← this, Fin.sum_univ_eq_sum_range (fun i => toepEntry r k i * GMat.entry X i l) p]
+  simp_rw [mul_sum]
+  rw [sum_comm]
+  have : ∀ l ∈ range p, ∑ i ∈ range p, toepEntry r k i * (GMat.entry X i l * r (l + 1))
+      = (if k = l then 1 else 0) * r (l + 1) := by
+    intro l hl
+    rw [← hTX l (mem_range.mp hl), sum_mul]
+    refine sum_congr rfl fun i _ => by ring
+  rw [sum_congr rfl this]
+  simp [hk]
+
+/-- **C10 the two estimators agree — with the model's own solver, no contract assumed.** -/
+theorem arYW_gj_eq_arLD (h0 : conj (r 0) = r 0) (p : ℕ) (hd : DivisorsOK r p)
+    (X : List (List ℂ)) (h : GMat.inv? (p + 1) (toeplitzH r (p + 1)) = some X) :
+    ∀ i, i < p + 1 → (arYW GMat.solve r (p + 1)).1.getD i 0 = (arLD r (p + 1)).1.getD i 0 :=
+  arYW_eq_arLD h0 p hd (gjSolve_isSolution (p + 1) X h).2 GMat.solve (gjSolve_isSolution (p + 1) X h).1
+
+end gj
 
 /-! ### autocorrelation -/
 
